@@ -402,6 +402,24 @@ CLAIMED["C01"] = dict(
          "attribute value state (no current attribute exists: undefined by the standard, html5ever keeps the orphan value "
          "for the next attribute). A disagreement is reported as a concrete VIOLATION with the input.")
 
+CLAIMED["C04"] = dict(
+    engine="tok+xmltok+total", design_ref="6.4",
+    technique="Lean 4 proof of a no-panic invariant for the HTML tokenizer model (all panic sites explicit) + feed-drains and "
+              "EOF-last lemmas; runtime totality (catch_unwind, watchdog with bisection, 10^4..10^6 depth/length families) for "
+              "the tree builders, xml5ever and real stack/time",
+    text="PARTIAL. Proved: every assert!/unwrap/expect/panic!/slice index/from_u32().unwrap() of html5ever's tokenizer and "
+         "character-reference tokenizer is unreachable from any freshly created tokenizer, for every input, chunking, start state "
+         "and sink policy (invariant Safe preserved by every step; uses the kernel-checked fact that all 2231 table values are "
+         "Unicode scalar values); a step that asks for more input has consumed everything available; the eof_step loop ends "
+         "by delivering EOF. Not proved (a model cannot exhibit real stack exhaustion, allocator aborts or wall-clock time, and the "
+         "tree-builder/XML models have no totality theorem yet): exercised instead — every tokenizer cover case and stress string "
+         "(HTML and XML, whole and chunked), and whole-parser runs on pathological documents/fragments/XML (every element class "
+         "nested 3*10^3 deep in quick, 10^5 deep and 10^6 long in thorough) must complete without panic/abort/hang, drain the "
+         "queue after every feed and deliver exactly one EOF last; the model's fuel must never run out.",
+    note="Trusted: Lean kernel; tokenizer model + tok/xmltok correspondence (a Rust panic surfaces as PANIC/ABORT); the watchdog in "
+         "tools/vlib.py; contract-abiding sinks (RcDom / recording sink). Termination of the tokenizer loop is not proved (fuel "
+         "4*(unread+stashed)+16 per feed was never exhausted).")
+
 PENDING_REASON = "not claimed yet: the Lean model / engine for this property is still under construction (see DESIGN.md section 8); no check is registered rather than registering one that is not sound"
 
 def main():
